@@ -45,3 +45,11 @@ def m_late(results, psi, model, simulation, results_key='late_value'):
     if previous:
         n = len(next(iter(previous.values())))
         results[results_key] = float(n) + float(abs(psi.overlap(psi)))
+
+
+def m_trunc_err(results, psi, model, simulation, results_key='trunc_err'):
+    """Record the accumulated truncation error *object* of a time-evolution engine.  tenpy stores lists of
+    TruncationError as two arrays `<key>_eps` and `<key>_ov` when saving (prepare_results_for_save)."""
+    err = getattr(simulation.engine, 'trunc_err', None)
+    if err is not None:
+        results[results_key] = err.copy() if hasattr(err, 'copy') else err
